@@ -564,6 +564,7 @@ def run(ctx, rep):
     K.share(ctx, rep, "c09", lambda o: o.rule in ("R09.4", "R09.5"), "R08.7", floor=6)
     K.connection_state(ctx, rep, "R08.8", ["_request_callbacks", "_seqcounter"])
     K.share(ctx, rep, "c01", lambda o: o.rule == "R01.2" and "exactly once" in o.key, "R08.9", floor=1)
+    K.share(ctx, rep, "c01", lambda o: o.rule == "R01.4" and "callback registered for the request" in o.key, "R08.8", floor=1)
     from . import hygiene as H
     H.private_state(ctx, rep, "R08.10", "rpyc.core.async_.AsyncResult")
     K.share(ctx, rep, "c15", lambda o: o.rule == "R15.1" or (o.rule == "R15.4" and "AsyncResult.wait" in o.key), "R08.11", floor=3)
